@@ -557,7 +557,6 @@ func Verif_C16_E10_ReplacementWithOwnHandler() {
 	vnd.ObserveBytes("e10", got)
 }
 
-
 // Verif_C16_E11_ClonedReplacement: as E1, but every stream replacement the handler
 // supplies is one half of a stream clone (what a replicating backend hands out): it,
 // too, must be opened at the offset already delivered.
